@@ -276,7 +276,8 @@ def run(ctx: Ctx) -> dict:
     events = []
     disc = 0
     for h, r in zip(hists, results):
-        steps = [{"out": c14.canon(s["out"]), "solo": solo_out[i], "acc": s["acc"], "census": s["census"]}
+        steps = [{"out": c14.canon(s["out"]), "solo": solo_out[i], "acc": s["acc"], "census": s["census"],
+                  "kept": s["out"].get("untouched", True) is not False}
                  for i, s in zip(h, r["steps"])]
         events.append({"i": len(events), "hist": h, "census0": r["census0"], "steps": steps, "full0": r["full0"],
                        "full_end": r["full_end"]})
